@@ -3,6 +3,7 @@ package main
 // Rules added in seeding round 6.
 
 import (
+	"fmt"
 	"go/ast"
 	"go/token"
 	"go/types"
@@ -662,5 +663,840 @@ func checkC20AddExec(c *Ctx) {
 	}
 	if n == 0 {
 		r.Unknown(f.Name(), "shape", f.Body.Pos(), "no closure executing the statement found in AddColumn")
+	}
+}
+
+// C07.escaping-closures (generalisation of field-closures): a function literal that OUTLIVES the call that
+// built it - it is returned, or stored into a struct field / composite-literal field / map or slice element -
+// can be run later by any goroutine sharing the object it was stored in.  Such a literal must not assign to a
+// variable captured from its builder: that variable is one cell shared by all of them.  Literals that are
+// only called (or deferred, or passed as an argument) during the builder's own activation are not examined -
+// assigning captured variables there is the normal way to return results.
+func checkC07EscapingClosures(c *Ctx) {
+	p := c.P
+	r := c.Rule("C07.escaping-closures", "function literals that are returned or stored in a field/element never assign to a variable captured from the function that built them", 18)
+	for _, f := range p.FuncsOf(pkgGorm, pkgCallbacks, pkgSchema, pkgClause, pkgMigrator) {
+		if f.Body == nil || f.Decl == nil {
+			continue
+		}
+		info := f.Pkg.TypesInfo
+		parents := parentMap(f.Body)
+		var visit func(n ast.Node) bool
+		visit = func(n ast.Node) bool {
+			fl, ok := n.(*ast.FuncLit)
+			if !ok {
+				return true
+			}
+			how := escapesHow(parents, fl)
+			if how == "" {
+				return true // nested literals are examined on their own
+			}
+			bad := 0
+			check := func(lhs ast.Expr, pos token.Pos) {
+				id := rootIdentOf(lhs)
+				if id == nil || id.Name == "_" {
+					return
+				}
+				obj, _ := info.Uses[id].(*types.Var)
+				if obj == nil || obj.IsField() || obj.Pkg() == nil || obj.Parent() == obj.Pkg().Scope() {
+					return // fields; package-level variables are C07.globals' business
+				}
+				if obj.Pos() >= fl.Pos() && obj.Pos() < fl.End() {
+					return
+				}
+				// a write THROUGH a captured pointer/map/slice into an object is a store into that object, decided by the
+				// who-writes rules of the object; here only re-assignment of the captured variable itself counts,
+				// plus element/field stores into captured non-pointer aggregates (arrays, structs)
+				if unparen(lhs) != ast.Expr(id) {
+					switch obj.Type().Underlying().(type) {
+					case *types.Pointer, *types.Map, *types.Slice, *types.Interface, *types.Chan:
+						return
+					}
+				}
+				bad++
+				r.Bad(f.Name(), "escaping closure assigns captured "+id.Name, pos, "a function literal that is "+how+" assigns to `"+types.ExprString(lhs)+"`, a variable of the function that built it: every later call (from any goroutine) shares that one cell")
+			}
+			ast.Inspect(fl.Body, func(m ast.Node) bool {
+				switch x := m.(type) {
+				case *ast.AssignStmt:
+					for _, l := range x.Lhs {
+						if x.Tok == token.DEFINE {
+							if id, ok := l.(*ast.Ident); ok && info.Defs[id] != nil {
+								continue
+							}
+						}
+						check(l, x.Pos())
+					}
+				case *ast.IncDecStmt:
+					check(x.X, x.Pos())
+				case *ast.RangeStmt:
+					if x.Tok == token.ASSIGN {
+						if x.Key != nil {
+							check(x.Key, x.Pos())
+						}
+						if x.Value != nil {
+							check(x.Value, x.Pos())
+						}
+					}
+				}
+				return true
+			})
+			if bad == 0 {
+				r.OK(f.Name(), "escaping closure ("+how+")", fl.Pos(), "no assignment to a captured variable")
+			}
+			return false
+		}
+		ast.Inspect(f.Body, visit)
+	}
+}
+
+// escapesHow: "" when the literal is only called / deferred / passed as an argument / bound to a local.
+func escapesHow(parents map[ast.Node]ast.Node, fl *ast.FuncLit) string {
+	var cur ast.Node = fl
+	for {
+		par := parents[cur]
+		switch x := par.(type) {
+		case *ast.ParenExpr:
+			cur = par
+			continue
+		case *ast.ReturnStmt:
+			return "returned"
+		case *ast.KeyValueExpr:
+			if x.Value == cur {
+				return "stored in a composite literal"
+			}
+			return ""
+		case *ast.CompositeLit:
+			return "stored in a composite literal"
+		case *ast.AssignStmt:
+			for i, rhs := range x.Rhs {
+				if rhs == cur && i < len(x.Lhs) {
+					switch unparen(x.Lhs[i]).(type) {
+					case *ast.SelectorExpr:
+						return "stored in a field"
+					case *ast.IndexExpr:
+						return "stored in an element"
+					}
+				}
+			}
+			return ""
+		default:
+			return ""
+		}
+	}
+}
+
+// C03.serializer-fresh: a scanned serializer field is read back through a pooled `*serializer` holder.  After
+// a successful Scan the record may keep the holder's Serializer object itself (same type) or a shallow copy
+// of it (same element type) - so the holder must get a NEW Serializer before it goes back to the pool,
+// otherwise the next row's Scan decodes into memory an earlier record still refers to.  Decided, by path
+// enumeration of the setter closure: every path on which the record's field is Set from `X.Serializer` is
+// followed by an assignment to `X.Serializer`.
+// C07.pool-fresh: what a sync.Pool's New closure returns must be created inside that closure: an identifier
+// captured from the builder that is placed into the returned object (or returned itself) is one object handed
+// to every goroutine that misses the pool.  The builder's receiver and parameters are accepted (long-lived
+// metadata the pool's values refer to, e.g. the *Field).
+func checkSerializerFresh(c *Ctx, r3, r7 *Rule) {
+	p := c.P
+	serT := p.Named(pkgSchema, "serializer")
+	serF := p.Field(serT, "Serializer")
+	n3 := 0
+	for _, f := range p.FuncsOf(pkgSchema) {
+		if f.Lit == nil || f.Body == nil {
+			continue
+		}
+		info := f.Pkg.TypesInfo
+		// record.Set(reflect.ValueOf(X.Serializer)...) sites directly in this literal
+		var sets []*ast.CallExpr
+		ast.Inspect(f.Body, func(n ast.Node) bool {
+			if fl, ok := n.(*ast.FuncLit); ok && fl != f.Lit {
+				return false
+			}
+			ce, ok := n.(*ast.CallExpr)
+			if !ok {
+				return true
+			}
+			sel, ok := ce.Fun.(*ast.SelectorExpr)
+			if !ok || sel.Sel.Name != "Set" || len(ce.Args) != 1 {
+				return true
+			}
+			uses := false
+			ast.Inspect(ce.Args[0], func(m ast.Node) bool {
+				if s, ok := m.(*ast.SelectorExpr); ok && fieldSel(info, s, serF) {
+					uses = true
+				}
+				return true
+			})
+			if uses {
+				sets = append(sets, ce)
+			}
+			return true
+		})
+		if len(sets) == 0 {
+			continue
+		}
+		if r3 == nil {
+			continue
+		}
+		c.Touch(rootFunc(f))
+		paths, ok := p.EnumPaths(f, nil, 5000)
+		if !ok {
+			r3.Unknown(f.Name(), "paths", f.Body.Pos(), "too many paths")
+			continue
+		}
+		for _, set := range sets {
+			n3++
+			bad, seen := 0, 0
+			for _, pr := range paths {
+				at := -1
+				for i, nd := range pr.Nodes {
+					if containsNode(nd, set) {
+						at = i
+					}
+				}
+				if at < 0 {
+					continue
+				}
+				seen++
+				fresh := false
+				for _, nd := range pr.Nodes[at+1:] {
+					if as, ok := nd.(*ast.AssignStmt); ok {
+						for _, l := range as.Lhs {
+							if s, ok := unparen(l).(*ast.SelectorExpr); ok && fieldSel(info, s, serF) {
+								fresh = true
+							}
+						}
+					}
+				}
+				if !fresh {
+					bad++
+				}
+			}
+			r3.Check(bad == 0 && seen > 0, f.Name(), "record keeps the scanned serializer", set.Pos(), "the pooled holder gets a new Serializer on every such path", "after the record's field was set from the pooled holder's Serializer the holder keeps that same object on some path: the next row scanned through the pool decodes into memory this record still refers to")
+		}
+	}
+	if r3 != nil && n3 == 0 {
+		r3.Bad("schema", "serializer setter", token.NoPos, "no setter that copies the scanned serializer into the record found; rule lost its anchor")
+	}
+	if r7 == nil {
+		return
+	}
+	// sync.Pool{New: func() interface{} {...}}
+	poolT := p.StdNamed("sync", "Pool")
+	n7 := 0
+	for _, f := range p.FuncsOf(pkgSchema, pkgGorm, pkgCallbacks, pkgClause) {
+		if f.Body == nil {
+			continue
+		}
+		info := f.Pkg.TypesInfo
+		ast.Inspect(f.Body, func(n ast.Node) bool {
+			if fl, ok := n.(*ast.FuncLit); ok && fl != f.Lit {
+				return false
+			}
+			cl, ok := n.(*ast.CompositeLit)
+			if !ok || derefNamed(info.TypeOf(cl)) != poolT {
+				return true
+			}
+			nf, _ := compositeField(cl, "New").(*ast.FuncLit)
+			if nf == nil {
+				return true
+			}
+			n7++
+			root := rootFunc(f)
+			isParam := func(o types.Object) bool {
+				if root.Decl == nil {
+					return false
+				}
+				lists := []*ast.FieldList{root.Decl.Type.Params, root.Decl.Recv}
+				for cur := f; cur != nil; cur = cur.Parent {
+					lists = append(lists, cur.Type.Params)
+				}
+				for _, fl := range lists {
+					if fl == nil {
+						continue
+					}
+					for _, fld := range fl.List {
+						for _, nm := range fld.Names {
+							if info.Defs[nm] == o {
+								return true
+							}
+						}
+					}
+				}
+				return false
+			}
+			var bads []string
+			judge := func(e ast.Expr) {
+				e = unparen(e)
+				if ce, ok := e.(*ast.CallExpr); ok && len(ce.Args) == 1 {
+					// conversions T(x)
+					if tv, ok := info.Types[ce.Fun]; ok && tv.IsType() {
+						e = unparen(ce.Args[0])
+					}
+				}
+				if ta, ok := e.(*ast.TypeAssertExpr); ok {
+					e = unparen(ta.X)
+				}
+				id, ok := e.(*ast.Ident)
+				if !ok {
+					return // calls, literals, selectors of fresh values
+				}
+				o, _ := info.Uses[id].(*types.Var)
+				if o == nil || o.Parent() == o.Pkg().Scope() {
+					return
+				}
+				if o.Pos() >= nf.Pos() && o.Pos() < nf.End() {
+					return
+				}
+				if isParam(o) {
+					return
+				}
+				switch o.Type().Underlying().(type) {
+				case *types.Pointer, *types.Interface, *types.Map, *types.Slice, *types.Chan:
+					bads = append(bads, id.Name)
+				}
+			}
+			ast.Inspect(nf.Body, func(m ast.Node) bool {
+				if fl, ok := m.(*ast.FuncLit); ok && fl != nf {
+					return false
+				}
+				ret, ok := m.(*ast.ReturnStmt)
+				if !ok {
+					return true
+				}
+				for _, res := range ret.Results {
+					e := unparen(res)
+					if u, ok := e.(*ast.UnaryExpr); ok && u.Op == token.AND {
+						e = unparen(u.X)
+					}
+					if lit, ok := e.(*ast.CompositeLit); ok {
+						for _, el := range lit.Elts {
+							if kv, ok := el.(*ast.KeyValueExpr); ok {
+								judge(kv.Value)
+							} else {
+								judge(el)
+							}
+						}
+					} else {
+						judge(e)
+					}
+				}
+				return true
+			})
+			r7.Check(len(bads) == 0, f.Name(), "sync.Pool New", nf.Pos(), "returns objects created inside the closure", "the pool's New hands out `"+strings.Join(bads, ",")+"`, a reference captured from the function that built the pool: every goroutine that misses the pool gets the same object")
+			return true
+		})
+	}
+	if n7 == 0 {
+		r7.Bad("schema", "pools", token.NoPos, "no sync.Pool literal with a New function found; rule lost its anchor")
+	}
+}
+
+// C06.fresh-handle: every exported *DB method that returns a *DB hands out either a session / instance
+// derived from the receiver (the result of Session, getInstance, another method) or - finishers - the
+// instance the operation ran on.  Returning the RECEIVER ITSELF makes "the handle I got back" and "the chain I
+// called it on" one object: on a live chain the next chain method then extends the caller's own statement and
+// sibling chains accumulate each other's conditions.  Decided on SSA: no return operand of such a method is
+// (a phi containing) the bare receiver parameter.
+func checkC06FreshHandle(c *Ctx) {
+	p := c.P
+	r := c.Rule("C06.fresh-handle", "no exported *DB method returns its own receiver as the resulting handle", 45)
+	for _, m := range []string{"Commit", "Rollback", "SavePoint", "RollbackTo"} {
+		r.Exempt("(*gorm.DB)."+m, "transaction control acts on the transaction handle it is called on and returns that handle so that its Error can be read; it starts no chain")
+	}
+	p.SSA()
+	dbT := p.Named(pkgGorm, "DB")
+	ptr := types.NewPointer(dbT)
+	ms := types.NewMethodSet(ptr)
+	for i := 0; i < ms.Len(); i++ {
+		m, _ := ms.At(i).Obj().(*types.Func)
+		if m == nil || !m.Exported() {
+			continue
+		}
+		sig := m.Type().(*types.Signature)
+		if sig.Results().Len() == 0 || !types.Identical(sig.Results().At(0).Type(), ptr) {
+			continue
+		}
+		fn := p.SSAFunc(m)
+		if fn == nil || fn.Blocks == nil || len(fn.Params) == 0 {
+			continue
+		}
+		if r.IsExempt(ssaFuncName(fn)) {
+			continue
+		}
+		recv := fn.Params[0]
+		bad := token.NoPos
+		var isRecv func(v ssa.Value, seen map[ssa.Value]bool) bool
+		isRecv = func(v ssa.Value, seen map[ssa.Value]bool) bool {
+			if seen[v] {
+				return false
+			}
+			seen[v] = true
+			switch x := v.(type) {
+			case *ssa.Parameter:
+				return x == recv
+			case *ssa.Phi:
+				for _, e := range x.Edges {
+					if isRecv(e, seen) {
+						return true
+					}
+				}
+			case *ssa.UnOp:
+				// load of a named result / local cell
+				if x.Op == token.MUL {
+					if al, ok := x.X.(*ssa.Alloc); ok {
+						for _, st := range cellStores(al) {
+							if isRecv(st, seen) {
+								return true
+							}
+						}
+					}
+				}
+			}
+			return false
+		}
+		forEachInstrFlat(fn, func(in ssa.Instruction) {
+			if ret, ok := in.(*ssa.Return); ok && len(ret.Results) > 0 && isRecv(ret.Results[0], map[ssa.Value]bool{}) {
+				bad = ret.Pos()
+			}
+		})
+		r.Check(bad == token.NoPos, ssaFuncName(fn), "resulting handle", fn.Pos(), "derived from the receiver, never the receiver itself", "the method can return its own receiver: called on a live chain the result is that chain, not a handle - later chains extend the caller's statement and siblings accumulate each other's conditions")
+	}
+}
+
+// C06.arg-handles: a *DB the user passes as an ARGUMENT (group condition Where(h)/Or(h)/Not(h), sub-query in
+// a condition / Table / Joins / a bound value) is only read.  It may be a reusable handle: a store into
+// memory reachable from it - a field of its Statement, an element of one of its expression lists, an entry of
+// one of its maps - or a call of a library function that writes through it changes every chain later derived
+// from that handle (finding F13: the group-condition arm of BuildCondition rewrote the handle's first OR
+// expression in place and cleared its pending scopes).  Decided on SSA: from every `x.(*DB)` type assertion
+// in packages gorm and callbacks, the values and addresses reachable by field selection, loads, map/slice
+// indexing and struct copies are collected; no Store / MapUpdate targets shared memory among them and no
+// repository function that writes through a parameter receives one of them for that parameter.  A *DB a library
+// method derives from the argument (getInstance, Session, executeScopes) is a new instance with a new Statement,
+// but Statement.clone is shallow below its maps and slices: what is looked up in them is the argument's again.
+func checkC06ArgHandles(c *Ctx) {
+	p := c.P
+	r := c.Rule("C06.arg-handles", "a *DB received as an argument (group condition, sub-query) is never written through", 3)
+	p.SSA()
+	// Session's own stores are decided path-sensitively by C06.instance ("only after the statement was replaced by
+	// a clone"); as in C06.recv it is trusted here
+	eff := p.Effects(p.SSAFunc(p.Method(p.Named(pkgGorm, "DB"), "Session")))
+	dbPtr := types.NewPointer(p.Named(pkgGorm, "DB"))
+	for _, fn := range p.SSAFuncs() {
+		root := rootSSA(fn)
+		if fn.Blocks == nil || root.Pkg == nil {
+			continue
+		}
+		if pp := root.Pkg.Pkg.Path(); pp != pkgGorm && pp != pkgCallbacks {
+			continue
+		}
+		var srcs []ssa.Value
+		forEachInstrFlat(fn, func(in ssa.Instruction) {
+			ta, ok := in.(*ssa.TypeAssert)
+			if !ok || !types.Identical(ta.AssertedType, dbPtr) {
+				return
+			}
+			if ta.CommaOk {
+				for _, ref := range *ta.Referrers() {
+					if ex, ok := ref.(*ssa.Extract); ok && ex.Index == 0 {
+						srcs = append(srcs, ex)
+					}
+				}
+			} else {
+				srcs = append(srcs, ta)
+			}
+		})
+		for _, src := range srcs {
+			val := map[ssa.Value]bool{src: true}    // values that are / contain references into the argument
+			shared := map[ssa.Value]bool{}          // addresses inside the argument's memory
+			holds := map[*ssa.Alloc]bool{}          // local cells holding such a value
+			fresh := map[ssa.Value]bool{}           // *DB / *Statement of an instance DERIVED from the argument (getInstance, Session, ...): the structs are new ...
+			freshAddr := map[ssa.Value]bool{}       // ... field addresses in them ...
+			semi := map[ssa.Value]bool{}            // ... their maps and slices are copies, but the ELEMENTS are still the argument's (Statement.clone is shallow below the containers)
+			local := map[ssa.Value]bool{}           // addresses inside such local cells
+			var bad []string
+			badPos := token.NoPos
+			note := func(pos token.Pos, s string) {
+				bad = append(bad, p.Pos(pos)+": "+s)
+				if badPos == token.NoPos {
+					badPos = pos
+				}
+			}
+			for changed := true; changed; {
+				changed = false
+				add := func(m map[ssa.Value]bool, v ssa.Value) {
+					if !m[v] {
+						m[v] = true
+						changed = true
+					}
+				}
+				forEachInstrFlat(fn, func(in ssa.Instruction) {
+					switch x := in.(type) {
+					case *ssa.Call:
+						// a *DB derived from the argument by a library method
+						if sc := x.Call.StaticCallee(); sc != nil && p.InRepo(sc) && types.Identical(x.Type(), dbPtr) {
+							for _, a := range x.Call.Args {
+								if (val[a] || fresh[a]) && types.Identical(a.Type(), dbPtr) {
+									add(fresh, x)
+								}
+							}
+						}
+					case *ssa.FieldAddr:
+						if fresh[x.X] {
+							add(freshAddr, x)
+							return
+						}
+						switch {
+						case val[x.X] || shared[x.X]:
+							add(shared, x)
+						case local[x.X]:
+							add(local, x)
+						default:
+							if al, ok := x.X.(*ssa.Alloc); ok && holds[al] {
+								add(local, x)
+							}
+						}
+					case *ssa.IndexAddr:
+						if semi[x.X] {
+							add(local, x) // an element cell of the instance's own copy; what is loaded from it is the argument's
+							return
+						}
+						switch {
+						case val[x.X] || shared[x.X]:
+							add(shared, x)
+						case local[x.X]:
+							add(local, x)
+						}
+					case *ssa.UnOp:
+						if x.Op != token.MUL {
+							return
+						}
+						if freshAddr[x.X] {
+							switch t := x.Type().Underlying().(type) {
+							case *types.Pointer:
+								if _, ok := t.Elem().Underlying().(*types.Struct); ok && (namedOf(x.Type()) == pkgGorm+".Statement" || namedOf(x.Type()) == pkgGorm+".DB") {
+									add(fresh, x)
+								}
+							case *types.Map, *types.Slice:
+								add(semi, x)
+							}
+							return
+						}
+						if shared[x.X] || local[x.X] {
+							add(val, x)
+						} else if al, ok := x.X.(*ssa.Alloc); ok && holds[al] {
+							add(val, x)
+						}
+					case *ssa.Field:
+						if val[x.X] {
+							add(val, x)
+						}
+					case *ssa.Lookup:
+						if val[x.X] || semi[x.X] {
+							add(val, x)
+						}
+					case *ssa.Index:
+						if val[x.X] || semi[x.X] {
+							add(val, x)
+						}
+					case *ssa.Range:
+						if val[x.X] || semi[x.X] {
+							add(val, x)
+						}
+					case *ssa.Next:
+						if val[x.Iter] {
+							add(val, x)
+						}
+					case *ssa.Extract:
+						if val[x.Tuple] {
+							add(val, x)
+						}
+					case *ssa.TypeAssert:
+						if val[x.X] && x != src {
+							add(val, x)
+						}
+					case *ssa.ChangeInterface:
+						if val[x.X] {
+							add(val, x)
+						}
+					case *ssa.ChangeType:
+						if val[x.X] {
+							add(val, x)
+						}
+					case *ssa.MakeInterface:
+						if val[x.X] {
+							add(val, x)
+						}
+					case *ssa.Slice:
+						if val[x.X] {
+							add(val, x)
+						}
+					case *ssa.Phi:
+						for _, e := range x.Edges {
+							if val[e] {
+								add(val, x)
+							}
+						}
+					case *ssa.Store:
+						if val[x.Val] {
+							if al, ok := x.Addr.(*ssa.Alloc); ok && !holds[al] {
+								holds[al] = true
+								changed = true
+							}
+						}
+					}
+				})
+			}
+			forEachInstrFlat(fn, func(in ssa.Instruction) {
+				switch x := in.(type) {
+				case *ssa.Store:
+					if shared[x.Addr] {
+						note(x.Pos(), "store into the argument's memory")
+					}
+				case *ssa.MapUpdate:
+					if val[x.Map] {
+						note(x.Pos(), "map update in the argument's memory")
+					}
+				case ssa.CallInstruction:
+					cc := x.Common()
+					callee := cc.StaticCallee()
+					if callee == nil || !p.InRepo(callee) {
+						return
+					}
+					for i, a := range cc.Args {
+						if !val[a] || !isPointerLike(a.Type()) {
+							continue
+						}
+						if ws, w := eff.WritesThrough(callee, i); w {
+							via := ""
+							if len(ws) > 0 {
+								via = " (" + ws[0].Path + ")"
+							}
+							note(x.Pos(), "call of "+callee.Name()+", which writes through that parameter"+via)
+						}
+					}
+				}
+			})
+			pos := src.Pos()
+			if badPos != token.NoPos {
+				pos = badPos
+			}
+			r.Check(len(bad) == 0, ssaFuncName(fn), "argument handle", pos, "only read (or derived from first)", "a *DB obtained from an argument is written through - "+strings.Join(bad, "; ")+": if the caller passed a reusable handle, every chain derived from it afterwards is changed")
+		}
+	}
+}
+
+// C02.operator-fixed: clause.Gt/Gte/Lt/Lte/Like (the comparison expressions whose Build writes exactly one
+// operator constant) stand for that operator whatever value they carry - this is what makes
+// `clause.Like{c, v}` and the raw unit "c LIKE ?" select the same rows.  Decided by path enumeration: every
+// path through Build and through NegationBuild writes the operator constant (exactly once), and neither
+// delegates to the Build/NegationBuild of another expression type.  Eq/Neq/IN have documented value-dependent
+// forms (NULL, lists) and are decided by the negation table only.
+func checkC02OperatorFixed(c *Ctx) {
+	p := c.P
+	r := c.Rule("C02.operator-fixed", "single-operator comparison expressions write their operator on every path of Build/NegationBuild and never delegate to another expression type", 8)
+	var pk *types.Package
+	for _, q := range p.All {
+		if q.PkgPath == pkgClause {
+			pk = q.Types
+		}
+	}
+	names := pk.Scope().Names()
+	sort.Strings(names)
+	for _, name := range names {
+		tn, ok := pk.Scope().Lookup(name).(*types.TypeName)
+		if !ok {
+			continue
+		}
+		nt, ok := tn.Type().(*types.Named)
+		if !ok {
+			continue
+		}
+		bm, nm := p.MethodOpt(nt, "Build"), p.MethodOpt(nt, "NegationBuild")
+		if bm == nil || nm == nil {
+			continue
+		}
+		bs, ns := p.SrcOpt(bm), p.SrcOpt(nm)
+		if bs == nil || ns == nil {
+			continue
+		}
+		opCalls := func(f *FuncSrc) (ops map[string]bool, calls []*ast.CallExpr, delegates []string) {
+			ops = map[string]bool{}
+			info := f.Pkg.TypesInfo
+			for _, call := range callsIn(f) {
+				if sel, ok := call.Fun.(*ast.SelectorExpr); ok && sel.Sel.Name == "WriteString" && len(call.Args) == 1 {
+					if s, ok := constString(info, call.Args[0]); ok {
+						if op, ok := normSQLOp(s); ok {
+							ops[op] = true
+							calls = append(calls, call)
+						}
+					}
+				}
+				if fn, _ := typeutil.Callee(info, call).(*types.Func); fn != nil && (fn.Name() == "Build" || fn.Name() == "NegationBuild") && fn.Pkg() != nil && fn.Pkg().Path() == pkgClause {
+					if sig := fn.Type().(*types.Signature); sig.Recv() != nil {
+						if un, ok := sig.Recv().Type().(*types.Named); ok && un != nt {
+							delegates = append(delegates, un.Obj().Name()+"."+fn.Name())
+						}
+					}
+				}
+			}
+			return
+		}
+		// frozen table (confirmed by reading): the expression types that stand for exactly one operator
+		want, single := map[string]string{"Gt": ">", "Gte": ">=", "Lt": "<", "Lte": "<=", "Like": "LIKE"}[name]
+		if !single {
+			continue
+		}
+		if bops, _, _ := opCalls(bs); len(bops) != 1 || !bops[want] {
+			var l []string
+			for o := range bops {
+				l = append(l, o)
+			}
+			sort.Strings(l)
+			r.Bad(bs.Name(), "operator", bs.Body.Pos(), name+".Build writes the operators {"+strings.Join(l, ", ")+"} instead of exactly `"+want+"`: for some values the expression no longer selects what the raw unit written with `"+want+"` selects")
+			continue
+		}
+		for _, f := range []*FuncSrc{bs, ns} {
+			c.Touch(f)
+			ops, calls, delegates := opCalls(f)
+			if f == ns && len(ops) == 0 && len(delegates) == 1 {
+				r.OK(f.Name(), "operator", f.Body.Pos(), "negation by conversion to "+delegates[0])
+				continue
+			}
+			paths, ok := p.EnumPaths(f, nil, 2000)
+			if !ok {
+				r.Unknown(f.Name(), "operator", f.Body.Pos(), "too many paths")
+				continue
+			}
+			bad := 0
+			for _, pr := range paths {
+				k := 0
+				for _, nd := range pr.Nodes {
+					for _, call := range calls {
+						if containsNode(nd, call) {
+							k++
+						}
+					}
+				}
+				if k != 1 {
+					bad++
+				}
+			}
+			var opl []string
+			for o := range ops {
+				opl = append(opl, o)
+			}
+			sort.Strings(opl)
+			r.Check(bad == 0 && len(ops) == 1 && len(delegates) == 0, f.Name(), "operator", f.Body.Pos(), "`"+strings.Join(opl, " ")+"` on every path", name+" does not render its operator on every path (operators {"+strings.Join(opl, ", ")+"}, delegates to {"+strings.Join(delegates, ", ")+"}, "+fmt.Sprint(bad)+" paths without exactly one operator): the expression and the raw unit written with that operator no longer select the same rows for some values")
+		}
+	}
+}
+
+// C11.join-refs: an association Join attaches the related row by ANDing one equality per reference of the
+// relation - key columns and, for polymorphic relations, the constant type column - as separate members of the
+// join's ON list; the soft-delete filter and the caller's conditions are grouped separately after them.
+// Decided by loop-iteration paths: in BuildQuerySQL every iteration of the loop over `relation.References`
+// stores exactly one member into one and the same list on every path.  (A reference that is routed into the
+// user-condition group instead - seed S120 - is ORed away by a caller condition containing OR.)
+func checkC11JoinRefs(c *Ctx) {
+	p := c.P
+	r := c.Rule("C11.join-refs", "association Joins: every reference of the relation contributes exactly one member to the join's ON list, on every path", 1)
+	refsF := p.Field(p.Named(pkgSchema, "Relationship"), "References")
+	root := p.FuncDecl(pkgCallbacks, "BuildQuerySQL")
+	n := 0
+	for _, f := range append([]*FuncSrc{root}, p.AllLits(root)...) {
+		info := f.Pkg.TypesInfo
+		ast.Inspect(f.Body, func(x ast.Node) bool {
+			if fl, ok := x.(*ast.FuncLit); ok && fl != f.Lit {
+				return false
+			}
+			rs, ok := x.(*ast.RangeStmt)
+			if !ok || !fieldSel(info, rs.X, refsF) {
+				return true
+			}
+			n++
+			c.Touch(f)
+			// stores of a list member inside the loop: L[i] = e / L = append(L, e)
+			type st struct {
+				node ast.Node
+				list string
+			}
+			var stores []st
+			ast.Inspect(rs.Body, func(y ast.Node) bool {
+				as, ok := y.(*ast.AssignStmt)
+				if !ok || len(as.Lhs) != 1 || len(as.Rhs) != 1 {
+					return true
+				}
+				if ix, ok := unparen(as.Lhs[0]).(*ast.IndexExpr); ok {
+					if _, isSlice := info.TypeOf(ix.X).Underlying().(*types.Slice); isSlice {
+						stores = append(stores, st{as, canon(info, ix.X)})
+					}
+				} else if ce, ok := unparen(as.Rhs[0]).(*ast.CallExpr); ok {
+					if id, ok := ce.Fun.(*ast.Ident); ok && id.Name == "append" && len(ce.Args) >= 2 && canon(info, ce.Args[0]) == canon(info, as.Lhs[0]) {
+						stores = append(stores, st{as, canon(info, as.Lhs[0])})
+					}
+				}
+				return true
+			})
+			lists := map[string]bool{}
+			for _, s := range stores {
+				lists[s.list] = true
+			}
+			paths, okp := p.EnumLoopIterPaths(f, rs, 5000)
+			if !okp {
+				r.Unknown(f.Name(), "reference loop", rs.Pos(), "iteration paths not enumerable")
+				return true
+			}
+			bad := 0
+			for _, nodes := range paths {
+				k := 0
+				for _, nd := range nodes {
+					for _, s := range stores {
+						if nd == s.node || containsNode(nd, s.node) {
+							k++
+						}
+					}
+				}
+				if k != 1 {
+					bad++
+				}
+			}
+			r.Check(bad == 0 && len(lists) == 1, f.Name(), "one ON member per reference", rs.Pos(), "every iteration stores one member into the ON list", "an iteration of the loop over the relation's references can complete without adding its equality to the join's ON list (or the members go to different lists): that reference is not ANDed onto the join - routed into the caller's condition group it is ORed away by a condition containing OR, and rows of another owner are attached")
+			return true
+		})
+	}
+	if n == 0 {
+		r.Bad(root.Name(), "reference loop", root.Body.Pos(), "BuildQuerySQL has no loop over relation.References any more; rule lost its anchor")
+	}
+}
+
+// C12.append-adds: Append never removes.  On has-one / belongs-to relations Append is implemented through
+// Replace, and Replace with no targets is Clear: the call is made only under the fact that targets were given.
+func checkC12AppendAdds(c *Ctx) {
+	p := c.P
+	r := c.Rule("C12.append-adds", "Association.Append reaches Replace only with a non-empty target list (Replace() without targets clears the relation)", 1)
+	assocT := p.Named(pkgGorm, "Association")
+	f := p.MethodDecl(pkgGorm, "Association", "Append")
+	repl := p.Method(assocT, "Replace")
+	c.Touch(f)
+	info := f.Pkg.TypesInfo
+	gs := p.Guards(f, nil)
+	n := 0
+	for _, call := range callsIn(f) {
+		if fn, _ := typeutil.Callee(info, call).(*types.Func); fn != repl {
+			continue
+		}
+		n++
+		if !call.Ellipsis.IsValid() || len(call.Args) != 1 {
+			r.OK(f.Name(), "Replace with explicit targets", call.Pos(), "fixed argument list")
+			continue
+		}
+		v := canon(info, call.Args[0])
+		facts, live := gs.At(call.Pos())
+		r.Check(!live || facts.Has(fFalse("len("+v+") == 0")), f.Name(), "Replace("+v+"...)", call.Pos(), "under len("+v+") > 0", "Append forwards to Replace without a dominating test that targets were given: Append() with an empty list clears the has-one / belongs-to link (and deletes the record under Unscoped)", "facts: "+strings.Join(facts.List(), ", "))
+	}
+	if n == 0 {
+		r.OK(f.Name(), "no Replace", f.Body.Pos(), "Append does not go through Replace")
 	}
 }
